@@ -30,3 +30,30 @@ Proof.
   destruct (cc_v4 c), (cc_v6 c); try (inversion H; reflexivity); rewrite Hn in H; destruct out; try congruence; inversion H; reflexivity.
 Qed.
 Print Assumptions C10_failed_write_maps_nothing.
+
+(* the same at the level of the closed loop: a ClusterCIDR work item that succeeded for an object carrying the
+   finalizer, run again on the same object (duplicate or stale notification, resync), changes nothing in the
+   world -- no state change, no API request -- whatever write outcome is scripted *)
+Theorem C10_world_second_handling_is_noop :
+  forall w key o out1 out2 w1 ob1,
+  o_deleting o = false -> need_finalizer o = false ->
+  run_cc_sync w key (Some o) out1 = (w1, ob1) -> ob_res ob1 = 1 ->
+  run_cc_sync w1 key (Some o) out2 = (w1, mkObs 1 [] false).
+Proof.
+  intros w key o out1 out2 w1 ob1 Hd Hn H Hr. unfold run_cc_sync in H.
+  destruct (w_ctl w) as [m|] eqn:Em; [|inversion H; subst; cbn in Hr; discriminate].
+  unfold sync_cc in H. rewrite Hd in H.
+  match type of H with context [reconcile_create m o ?x] => destruct (reconcile_create m o x) as [[m1 r] fx] eqn:Ec end.
+  cbn [andb] in H. inversion H; subst. clear H. cbn [ob_res] in Hr.
+  destruct r as [[]|e|]; cbn in Hr; try discriminate.
+  (* the first handling wrote nothing either: the finalizer was already there *)
+  assert (Hfx : fx = []).
+  { unfold reconcile_create in Ec. rewrite Hn in Ec. cbn [orb] in Ec. destruct (negb (is_mapped_obj m o)); [|inversion Ec; reflexivity].
+    unfold create_cluster_cidr in Ec. destruct (o_selkey o); [|discriminate]. destruct (create_set o false) as [c| |]; try discriminate.
+    rewrite Hn in Ec. destruct (cc_v4 c), (cc_v6 c); inversion Ec; reflexivity. }
+  subst fx. cbn [apply_effects after_call].
+  unfold run_cc_sync. cbn [set_ctl w_ctl]. unfold sync_cc. rewrite Hd.
+  match goal with |- context [reconcile_create m1 o ?x] => rewrite (reconcile_create_idempotent m o _ x m1 [] Ec Hn) end.
+  cbn. reflexivity.
+Qed.
+Print Assumptions C10_world_second_handling_is_noop.
